@@ -930,7 +930,7 @@ fn without_repeated_errors(errors: Vec<Error>) -> Vec<Error> { unimplemented!() 
 //@ end
 
 //@ fn sylt-parser/src/expression.rs grouping_or_tuple
-//@   props C13 C07
+//@   props C13 C07 C14
 //@   attr #[verifier::exec_allows_no_decreases_clause]
 //@   ret r
 //@   spec
@@ -943,10 +943,20 @@ fn without_repeated_errors(errors: Vec<Error>) -> Vec<Error> { unimplemented!() 
 //@+                 is_tuple = is_tuple || matches!(ctx.token(), T::Comma);
 //@   why Verus has no |= on bool; the right-hand side is a pure pattern test, so || is the same computation
 //@   endrewrite
+//@   ghost before-loop 1
+        // the group opens with `,` or `)`: read off the token stream, not off the code's own flag
+        let ghost lead = ctx.tok() is Comma || ctx.tok() is RightParen;
+//@   endghost
+//@   ghost before
+//@| if is_tuple {
+                assert(exprs.len() == 1 && !lead && !(ctx.tok() is Comma) ==> !is_tuple); //# C14 grouping.one_expression_without_a_comma_is_a_parenthesis_not_a_tuple
+//@   endghost
 //@   loop 1
         invariant_except_break
             !is_tuple ==> exprs.len() == 0 && !(ctx.tok() is Comma) && !(ctx.tok() is RightParen), //# C07 grouping.loop.nothing_parsed_yet
         invariant
+            // C14 (redundant parentheses): the group is a tuple only if it opened with `,` / `)` or a comma followed an element
+            is_tuple ==> lead || exprs.len() >= 1, //# C14 grouping.loop.a_tuple_needs_a_comma_or_an_empty_group
             wf_all(exprs@), //# C13 grouping.loop.members_wf
             forall|i: int| 0 <= i < exprs@.len() ==> pe_shape(#[trigger] exprs@[i]), //# C07 grouping.loop.members_shape
         ensures
